@@ -11,7 +11,6 @@ import (
 	"github.com/attestantio/vouch/internal/vnd"
 	"github.com/attestantio/vouch/internal/vstub"
 	standardvalidatorsmanager "github.com/attestantio/vouch/services/validatorsmanager/standard"
-	"github.com/rs/zerolog"
 	e2wtypes "github.com/wealdtech/go-eth2-wallet-types/v2"
 )
 
@@ -31,7 +30,7 @@ func (p *c17Provider) Validators(_ context.Context, _ *api.ValidatorsOpts) (*api
 // signer returns now (0..3 accounts).
 func VerifC17_RefreshVsLookup() {
 	prov := &c17Provider{data: map[phase0.ValidatorIndex]*apiv1.Validator{}}
-	vm, err := standardvalidatorsmanager.New(context.Background(), standardvalidatorsmanager.WithLogLevel(zerolog.Disabled),
+	vm, err := standardvalidatorsmanager.New(context.Background(), standardvalidatorsmanager.WithLogLevel(vnd.LogLevel()),
 		standardvalidatorsmanager.WithMonitor(struct{}{}), standardvalidatorsmanager.WithClientMonitor(vstub.ClientMonitor{}),
 		standardvalidatorsmanager.WithValidatorsProvider(prov), standardvalidatorsmanager.WithFarFutureEpoch(c13FarFuture))
 	vnd.Assert(err == nil, "C17.dirk.validators-manager-built")
